@@ -46,6 +46,23 @@ fn lsp_sets(order: usize, full_upto: usize) -> Vec<Vec<f64>> {
             }
         }
     }
+    // the slowest legal decays: the first (or last) two gaps at the smallest legal spacing pi/(4(order+1)) - a sharp
+    // resonance at the very bottom (top) of the axis, whose pulse response rings for tens of thousands of samples
+    {
+        let n = order + 1;
+        for at_top in [false, true] {
+            let mut gaps = vec![2.0; n];
+            // after normalisation a gap of g units is pi g / total; with two gaps of x: total = 2(n-2) + 2x, and
+            // pi x / total = pi / (4 n)  =>  x = 2(n-2) / (4n - 2)
+            let x = 2.0 * (n as f64 - 2.0) / (4.0 * n as f64 - 2.0) * 1.02;
+            if n >= 3 && x > 0.0 {
+                let (a, b) = if at_top { (n - 1, n - 2) } else { (0, 1) };
+                gaps[a] = x;
+                gaps[b] = x;
+                sets.push(mk(&gaps));
+            }
+        }
+    }
     sets
 }
 
@@ -85,7 +102,7 @@ pub fn run(tier: Tier) -> i32 {
     let orders: Vec<usize> = tier.pick((2..=24).filter(|o| *o <= 8 || o % 4 == 0 || *o == 23).collect(), (2..=24).collect());
     let stages: &[usize] = &[1, 2, 3, 4];
     let alphas = [0.0, 0.3, 0.6];
-    rep.set_rule("SCOPE: LSP orders x stages 1..4 x alpha {0,.3,.6} x {linear, log} gain x K {0.5,1,2}; LSP sets = all compositions of the order+1 gaps from {1,2,4} units (orders up to the full bound) or uniform + every single gap narrowed/widened (larger orders), all with spacing >= pi/(4(order+1)); real Vocoder pulse responses of the first and the second frame at F0=20Hz, and on every 5th case the 3rd/4th frame after a first frame with another gain (same frequencies) or with other frequencies; oracle ln K - s ln|A(e^{jw~})| within 0.001 Np at grid frequencies within 100 dB of the peak, response finite and decaying; distinct = (order, stage, alpha, gain form, K, LSP set)");
+    rep.set_rule("SCOPE: LSP orders x stages 1..4 x alpha {0,.3,.6} x {linear, log} gain x K {0.5,1,2}; LSP sets = all compositions of the order+1 gaps from {1,2,4} units (orders up to the full bound) or uniform + every single gap narrowed/widened (larger orders), plus for every order the two sets whose first (last) two gaps have the smallest legal spacing, all with spacing >= pi/(4(order+1)); real Vocoder pulse responses of the first and the second frame at F0=20Hz, and on every 5th case the 3rd/4th frame after a first frame with another gain (same frequencies) or with other frequencies; oracle ln K - s ln|A(e^{jw~})| within 0.001 Np at grid frequencies within 100 dB of the peak, response finite and decaying; distinct = (order, stage, alpha, gain form, K, LSP set)");
     rep.assume("LSP sets on the gap lattice only; nominal rate raised (8k..8M) only to lengthen T0 until the truncated tail is < 1e-9 of the peak");
     let mut cases: Vec<(usize, usize, f64, bool, f64, Vec<f64>)> = Vec::new();
     for &order in &orders {
